@@ -243,6 +243,9 @@ func (c *c17Ctx) violate(class string, feats map[string]string, what string, det
 	if oc := os.Getenv("C17_CLASS"); oc != "" && !strings.Contains(oc, class) { // debugging aid
 		return
 	}
+	if oc := os.Getenv("C17_CAUSE"); oc != "" && !strings.Contains(feats["cause"], oc) { // debugging aid
+		return
+	}
 	soft := class == "listed_without_data" && feats["cause"] != "" && !strings.Contains(feats["cause"], "unknown") && !strings.Contains(feats["cause"], "one_delete")
 	if soft {
 		k := class + feats["cause"]
@@ -256,7 +259,7 @@ func (c *c17Ctx) violate(class string, feats map[string]string, what string, det
 	} else {
 		c.bad = true
 	}
-	c.r.Event("violations_"+class+"_"+feats["api"]+feats["cause"]+feats["via"]+feats["site"], 1)
+	c.r.Event("violations_"+class+"_"+feats["api"]+feats["cause"]+feats["via"]+feats["site"]+feats["trigger"]+c.feat["parked_at"], 1)
 	f := map[string]string{"after": c.last}
 	for k, v := range c.feat {
 		f[k] = v
@@ -270,6 +273,8 @@ func (c *c17Ctx) violate(class string, feats map[string]string, what string, det
 	}
 	c.r.Violation(class, f, c17Wit{Case: caseID, History: h, What: what, Detail: detail})
 }
+
+func (c *c17Ctx) hit(series string, g int) { c.dels[fmt.Sprintf("%s\x00%d", series, g)]++ }
 
 func (c *c17Ctx) filterSkip(series, field string, pts []sk.Pt) []sk.Pt {
 	if len(c.skip) == 0 {
@@ -566,16 +571,19 @@ func (c *c17Ctx) check(caseID string) {
 						nd = k
 					}
 				}
+				prefix := false
+				for other := range live {
+					if strings.HasPrefix(other, skey+",") {
+						prefix = true
+					}
+				}
 				switch {
 				case nd >= 2:
 					staleCause[skey] = "series_emptied_by_several_deletes"
+				case prefix:
+					staleCause[skey] = "series_key_is_prefix_of_a_live_series_key"
 				case nd == 1:
 					staleCause[skey] = "series_emptied_by_one_delete"
-					for other := range live {
-						if strings.HasPrefix(other, skey+",") {
-							staleCause[skey] = "series_key_is_prefix_of_a_live_series_key"
-						}
-					}
 				default:
 					staleCause[skey] = "unknown"
 				}
@@ -700,7 +708,7 @@ func c17History(r *vkit.Run, t *testing.T, i int) {
 					before += len(f.P)
 				}
 			}
-			n := d.ApplyHit(w, c.m, func(series string, g int) { c.dels[fmt.Sprintf("%s\x00%d", series, g)]++ })
+			n := d.ApplyHit(w, c.m, c.hit)
 			mes := "<nil>"
 			if me != nil {
 				mes = me.String()
@@ -906,7 +914,7 @@ func c17Schedule(r *vkit.Run, t *testing.T, i int) {
 		r.Inconclusive("delete_neither_parked_nor_finished")
 		return
 	}
-	removed := d.Apply(w, c.m)
+	removed := d.ApplyHit(w, c.m, c.hit)
 	// non-conflicting write: every series gets a point outside [min,max] in every group (so whichever
 	// shard the delete is parked in is written to, and to the very series being deleted)
 	var free []models.Point
@@ -1081,7 +1089,7 @@ func c17Stress(r *vkit.Run, t *testing.T, i int) {
 		if rg.Bool() {
 			d.Mode, d.Expr = "proto", c17Cmp("t0", "=", vkit.Pick(rg, w.Vals["t0"]))
 		}
-		d.Apply(w, c.m)
+		d.ApplyHit(w, c.m, c.hit)
 		dels = append(dels, d)
 		c.hist = append(c.hist, "concurrent "+d.String())
 	}
@@ -1163,9 +1171,9 @@ func TestC17(t *testing.T) {
 		"cells written by a write that overlaps the running delete's range are accepted present or absent",
 		"the _measurement terms handed to the engine next to the predicate are derived as http/delete_handler.go decodeDeleteRequest does")
 	r.Trust("verifhook points in tsdb/engine/tsm1/engine.go deleteSeriesRange")
-	nHist := r.N(60, 1500)
-	nSched := r.N(20, 400)
-	nStress := r.N(6, 120)
+	nHist := r.N(60, 1000)
+	nSched := r.N(20, 240)
+	nStress := r.N(6, 60)
 	phase := map[string]float64{}
 	only := os.Getenv("VERIF_ONLY") // e.g. "hist:16": run one case (debugging / replay)
 	sel := func(kind string, i int) bool { return only == "" || only == fmt.Sprintf("%s:%d", kind, i) }
